@@ -110,8 +110,8 @@ def rule_vacant(E, R):
             continue
         # the key is the complete name / the type
         key = strip(target["scrut"])["args"][0]
-        kn = local_name(chain(key)[0])
-        R.check(kn in ("name", "ty"), rule, fn, "the entry key is the complete %s" % ("name" if mapf == "items" else "type"), str(kn), target["sp"])
+        kn = "param#1" if is_param(chain(key)[0], h, 1) else local_name(chain(key)[0])
+        R.check(kn == "param#1", rule, fn, "the entry key is the complete %s" % ("name" if mapf == "items" else "type"), str(kn), target["sp"])
         arms = {last_seg(pat_variant(a["pat"]) or "_"): a for a in target["arms"]}
         vac, occ = arms.get("Vacant"), arms.get("Occupied")
         if not vac or not occ:
@@ -183,8 +183,8 @@ def rule_vacant(E, R):
             R.cannot(rule, fn, "anchor not found")
             continue
         cs = [c for c in exprs(h["body"], "MethodCall") if norm(c.get("callee", "")) == SB + "::add_field_full"]
-        ok = len(cs) == 1 and is_lit(cs[0]["args"][2], opt) and local_name(cs[0]["args"][1]) == "ty" and \
-            local_name(chain(cs[0]["args"][0])[0]) == "name"
+        ok = len(cs) == 1 and is_lit(cs[0]["args"][2], opt) and is_param(cs[0]["args"][1], h, 2) and \
+            is_param(chain(cs[0]["args"][0])[0], h, 1)
         R.check(ok, rule, fn, "registers (name, ty, optional=%s)" % str(opt).lower(), where=h["span"])
 
 
@@ -196,7 +196,7 @@ def rule_exact(E, R):
         R.cannot(rule, fn, "anchor not found")
     else:
         gets = [c for c in exprs(h["body"], "MethodCall") if _reg_field(c["recv"]) == "items" and strip(c["recv"]).get("k") == "Field"]
-        ok = len(gets) == 1 and gets[0]["m"] == "get" and local_name(gets[0]["args"][0]) == "name"
+        ok = len(gets) == 1 and gets[0]["m"] == "get" and is_param(gets[0]["args"][0], h, 1)
         R.check(ok, rule, fn, "identifiers are resolved by one HashMap::get with the complete name", where=h["span"])
         tbl = {}
         for m in exprs(h["body"], "Match"):
@@ -230,7 +230,7 @@ def rule_exact(E, R):
         ok = False
         if t.get("k") == "Match":
             sc = strip(t["scrut"])
-            via_get = sc.get("k") == "MethodCall" and norm(sc.get("callee", "")) == fn and local_name(sc["args"][0]) == "name"
+            via_get = sc.get("k") == "MethodCall" and norm(sc.get("callee", "")) == fn and is_param(sc["args"][0], hh, 1)
             arms = t["arms"]
             first = arms[0]["pat"] if arms else {}
             inner = pat_variant(first["pats"][0]) if first.get("k") == "PTupleStruct" and first.get("pats") else None
@@ -255,12 +255,15 @@ def rule_exact(E, R):
     dots = [c for c in exprs(hi["body"], "Call") if norm(c.get("callee", "")) == "lex::expect" and lit_value(c["args"][1]) == "."]
     R.check(len(dots) == 1, rule, fi, "segments are joined by `.`", where=hi["span"])
     look = [c for c in exprs(hi["body"], "MethodCall") if norm(c.get("callee", "")) == fn]
+    # the looked-up text is span(<copy of the input taken on entry>, <the cursor after the last segment>)
     name_ok = False
-    for st in exprs(hi["body"], "SLet"):
-        if st["pat"].get("name") == "name" and "init" in st:
-            i = strip(st["init"])
-            name_ok = norm(i.get("callee", "")) == "lex::span" and [local_name(a) for a in i["args"]] == ["initial_input", "input"]
-    R.check(len(look) == 1 and local_name(look[0]["args"][0]) == "name" and name_ok, rule, fi,
+    looked = let_init(hi["body"], local_name(look[0]["args"][0])) if len(look) == 1 and local_name(look[0]["args"][0]) else None
+    if looked is not None:
+        i = strip(looked)
+        if norm(i.get("callee", "")) == "lex::span" and len(i.get("args", [])) == 2:
+            start_init = let_init(hi["body"], local_name(i["args"][0])) if local_name(i["args"][0]) else None
+            name_ok = start_init is not None and is_param(start_init, hi, 0) and is_param(i["args"][1], hi, 0)
+    R.check(len(look) == 1 and name_ok, rule, fi,
             "the whole maximal dotted run is looked up (no prefix fallback)", where=hi["span"])
     S = sem.Sem(E, hi)
     oks = [x for x in S.result_leaves() if x.node.get("k") == "Call" and norm(x.node.get("callee", "")) == "core::result::Result::Ok"]
@@ -278,6 +281,32 @@ def rule_exact(E, R):
                     found = True
         good = good and found
     R.check(good, rule, fi, "an unknown name is an error", "every accepting return must sit on a path where the lookup found the name", hi["span"])
+
+
+def _index_from_registry(hb, e):
+    """the local is the payload of a SchemeItem entry, or the parameter of a closure mapped over `0..<registry>.len()` or over a
+    lookup in the registry's type table"""
+    nm = local_name(e)
+    if not nm:
+        return False
+    body = hb["body"]
+    for q in walk(body):
+        if q.get("k") == "PTupleStruct" and "SchemeItem::" in norm(q["res"].get("path", "")) and nm in pat_bindings(q):
+            return True
+    for c in exprs(body, "MethodCall"):
+        if c["m"] != "map" or not c.get("args"):
+            continue
+        clo = closure_of(c["args"][0])
+        if not clo or nm not in closure_param_names(clo):
+            continue
+        r = strip(c["recv"])
+        if r.get("k") == "Struct" and "ops::range::Range" in norm(r["res"].get("path", "")):
+            fl = {x["name"]: strip(x["e"]) for x in r["fields"]}
+            if lit_value(fl.get("start", {})) == 0 and fl.get("end", {}).get("m") == "len" and _reg_field(fl["end"]["recv"]):
+                return True
+        if r.get("k") == "MethodCall" and r["m"] == "get" and _reg_field(r["recv"]):
+            return True
+    return False
 
 
 REF_TYPES = {"scheme::FieldRef", "scheme::Field", "scheme::FunctionRef", "scheme::Function", "scheme::ListRef", "scheme::List"}
@@ -302,9 +331,7 @@ def rule_refs(E, R):
             src = None
             if idx.get("k") == "Field" and idx.get("name") == "index" and local_name(idx["e"]) == "self":
                 src = "self.index"
-            elif local_name(idx) == "index":
-                src = "index read from the registry"
-            elif idx.get("k") == "Unary" and idx.get("op") == "Deref" and local_name(idx["e"]) == "index":
+            elif _index_from_registry(hb, idx["e"] if idx.get("k") == "Unary" and idx.get("op") == "Deref" else idx):
                 src = "index read from the registry"
             in_scheme_mod = fn.startswith("scheme::") or fn.startswith("<scheme::")
             R.check(src is not None and in_scheme_mod, rule, fn, "%s built from %s" % (last_seg(d), src or "?"),
